@@ -83,6 +83,19 @@ def apply_faults(tokens, faults):
             toks.insert(i, (ch, "badchar", None))
         elif kind == "badunits":
             toks.insert(i, ("<m<s>", "badunits", None))
+        elif kind == "unclose-quote":
+            # a quoted string loses its closing quote and the text goes on; only when
+            # that quote character does not occur anywhere later (then the string
+            # runs to the end of the text, whatever the text ends in)
+            for j in list(range(i, len(toks))) + list(range(0, i)):
+                if toks[j][1] == "quoted" and len(toks[j][0]) >= 2:
+                    q = toks[j][0][0]
+                    if q in toks[j][0][1:-1]:
+                        continue
+                    if any(q in t[0] for t in toks[j + 1:]):
+                        continue
+                    toks[j] = (toks[j][0][:-1], "broken", None)
+                    break
         elif kind == "unclose":
             # the first units expression at or after i loses its '>' and the text
             # goes on: whatever follows, up to the next '>', is swallowed by it
@@ -123,6 +136,7 @@ def fault_strategy():
         st.tuples(st.just("badunits"), idx),
         st.tuples(st.just("unclose"), idx),
         st.tuples(st.just("unclose"), idx),
+        st.tuples(st.just("unclose-quote"), idx),
     )
     return st.lists(one, min_size=1, max_size=3)
 
@@ -266,7 +280,11 @@ def _base_documents():
     doc3 = [T("a"), EQ, num("1"), T("b"), EQ, O, O, num("1"), CM, num("2"), C, CM, O,
             num("3"), CM, num("4"), C, C, T("c"), EQ, num("5"), u("m"), T("d"), EQ,
             num("6"), u("s")]
-    return [doc1, doc2, doc3]
+    doc4 = [T("NOTE"), EQ, q("Calibrated image"), T("LINES"), EQ, num("1024"),
+            T("TARGET_NAME"), EQ, T("'MARS'", "quoted", ("str", "MARS"))]
+    doc5 = [T("A"), EQ, T("'x y'", "quoted", ("str", "x y")), T("B"), EQ, O, num("1"), CM,
+            q("z"), C]
+    return [doc1, doc2, doc3, doc4, doc5]
 
 
 def single_faults(acc, d):
@@ -280,7 +298,8 @@ def single_faults(acc, d):
         for i in range(n):
             faults += [("delete", i), ("dup", i), ("swap", i), ("truncate", i),
                        ("cut", i, 1), ("cut", i, 2), ("badchar", i, 0),
-                       ("badchar", i, 1), ("badunits", i), ("unclose", i)]
+                       ("badchar", i, 1), ("badunits", i), ("unclose", i),
+                       ("unclose-quote", i)]
             faults += [("replace", i, k) for k in range(len(PUNCT) + 4)]
         for f in faults:
             toks = apply_faults(base, [f])
